@@ -201,6 +201,16 @@ func (w *Workload) GenText(r *model.Rand, big bool) Base {
 }
 
 var yamlShapes = []string{
+	// an instance that merges (or contains) itself, directly and one level down
+	"- &a\n  <<: *a\n  chord: {degree: \"1\", name: \"\"}\n  values: [\"1\"]\n",
+	"- &a {<<: *a, values: [\"1\"]}\n",
+	"- &a\n  <<: [*a]\n  values: [\"1\"]\n",
+	"- &a\n  values: [\"1\"]\n  meta: {<<: *a}\n",
+	"- &a\n  chord: &b {<<: *b, degree: \"1\", name: \"\"}\n  values: [\"1\"]\n",
+	"- &a [*a]\n",
+	// an alias whose anchor has a numeric name, standing where a duration is expected
+	"- meta: {txt: &2 \"1/0\"}\n  chord: {degree: \"1\", name: \"\"}\n  values: [*2]\n",
+	"- meta: {txt: &4 \"0\"}\n  values: [*4]\n- chord: {degree: \"1\", name: \"\"}\n  values: [\"1\"]\n",
 	"- &a\n  chord: {degree: \"1\", name: \"\"}\n  values: [\"1\"]\n- *a\n- *a\n",
 	"- &a {values: [\"1\"], bpm: 90}\n- <<: *a\n  chord: {degree: \"5\", name: \"7\"}\n",
 	"- values: &v [\"1\", \"1/2\"]\n- values: *v\n  chord: {degree: \"2\", name: m}\n",
